@@ -42,6 +42,8 @@ TEXT = {
          "Rocq proof: exactness of the validation model of every entry point; boundary-grid correspondence incl. hang/panic detection"),
  "C18": ("Theorems C18_total (no constructor has a panicking outcome, for all arguments), C18_*_verifies (what a constructor returns passes verification), C18_residual / C18_subframes / C18_verified_subframe_serialises (a constructed or verified residual / subframe serialises on either sink, without panic, to exactly count_bits bits - via C08 and C11). PARTIAL: parse-back identity and frame/header/metadata serialisation are validated, not proved, by the CTOR stream: every constructor on consistent and inconsistent argument grids, implementation (debug+release) vs model on verdict, verify, count_bits, bits written, bytes and parse-back, plus the property itself as an oracle on the implementation's observations.",
          "Rocq proof: totality, verification and bit-exact serialisability of constructed components; boundary-grid correspondence and parse-back oracle"),
+ "C20": ("Theorems C20_threading_fields_irrelevant (the configuration fields whose default depends on feature `par` do not influence the emitted bytes, for every input and estimator), C20_verify_feature_independent (acceptance of a configuration without experimental options does not depend on feature `experimental`). The encoder model has no feature parameter; that each build computes that one function is established by correspondence: the harness is built against /repo with the feature sets {}, default, decode, default+experimental; the same ENC cases run on all builds; outputs and estimator (hook) values are compared with the extracted model and with each other.",
+         "Rocq proof of configuration-level feature independence; four feature builds run on the same cases against the extracted model and each other"),
 }
 NOTE = ("Trusted: Coq 8.16.1 kernel, extraction with ExtrOcamlBasic only, OCaml driver, Rust harness, tools/*.py, "
         "and the hand-written model of the named source files, which is tied to /repo by differential testing "
